@@ -39,6 +39,77 @@ type pScn struct {
 	opi      int
 	// zombie 'me'/'grp' topics whose unload was split (hub removed them, the "off" fan-out is still pending)
 	zombies map[string]*Topic
+	// C10x: clogged connections (send buffer full, nothing reads it): session index -> stop handle of the
+	// goroutine that keeps serving the session's detach channel meanwhile
+	clogged map[int]*pClogC10x
+}
+
+// pClogC10x: a connection that stopped reading.  The driver's drain loop of the vSess is stopped through the
+// session's own stop channel and Session.send is filled to capacity with dummy byte frames, so every
+// Session.queueOut on it takes the `default:` branch - the real "connection stuck" path of
+// broadcastToSessions (topic.go:1326-1337: the topic detaches the session).  As in hdl_websock.go's writeLoop
+// a detach request of a topic (evictUser -> Session.detachSession) is still served: one legal schedule of a slow
+// writer whose buffer stays full.
+type pClogC10x struct {
+	quit chan bool
+	done chan bool
+}
+
+func pClogLoopC10x(s *Session, c *pClogC10x) {
+	for {
+		select {
+		case topic := <-s.detach:
+			s.delSub(topic)
+		case <-c.quit:
+			close(c.done)
+			return
+		}
+	}
+}
+
+func (sc *pScn) clogC10x(si int) bool {
+	vs := sc.sess[si]
+	if vs == nil || sc.dead[si] || sc.clogged[si] != nil || vs.s.countSub() == 0 {
+		return false
+	}
+	vs.s.stop <- nil
+	<-vs.done
+	for {
+		select {
+		case vs.s.send <- []byte{0x30}:
+			continue
+		default:
+		}
+		break
+	}
+	c := &pClogC10x{quit: make(chan bool), done: make(chan bool)}
+	sc.clogged[si] = c
+	go pClogLoopC10x(vs.s, c)
+	return true
+}
+
+// stop serving the clogged connection; restart = the client reads again (the queued dummies are thrown away)
+func (sc *pScn) unclogC10x(si int, restart bool) bool {
+	c := sc.clogged[si]
+	if c == nil {
+		return false
+	}
+	close(c.quit)
+	<-c.done
+	delete(sc.clogged, si)
+	if restart {
+		vs := sc.sess[si]
+		for len(vs.s.send) > 0 {
+			if m := <-vs.s.send; m != nil {
+				if _, dummy := m.([]byte); !dummy {
+					fmt.Fprintln(sc.out, "HANG a frame entered the full queue of a clogged session")
+				}
+			}
+		}
+		vs.done = make(chan bool)
+		go vs.loop()
+	}
+	return true
 }
 
 func (sc *pScn) userName(i int) string { return sc.uids[i].UserId() }
@@ -218,6 +289,10 @@ func (sc *pScn) op(w []string) {
 	id := strconv.Itoa(sc.opi)
 	at := func(i int) int { v, _ := strconv.Atoi(a[i]); return v }
 	skipped := false
+	if pActorOpC10x[kind] && sc.clogged[at(0)] != nil {
+		// a client whose connection is stuck sends nothing either (both sides skip the request)
+		kind, skipped = "", true
+	}
 	switch kind {
 	case "new": // new <sid> <k>: create group k, owner = the session's user, default access JRWPS for authenticated users
 		si := at(0)
@@ -268,10 +343,23 @@ func (sc *pScn) op(w []string) {
 	case "disc":
 		si := at(0)
 		if vs := sc.sess[si]; vs != nil && !sc.dead[si] {
-			vs.s.cleanUp(true)
-			<-vs.done
+			if sc.unclogC10x(si, false) {
+				// the drain loop is not running: cleanUp only needs the free stop slot
+				vs.s.cleanUp(true)
+			} else {
+				vs.s.cleanUp(true)
+				<-vs.done
+			}
 			sc.dead[si] = true
 		} else {
+			skipped = true
+		}
+	case "clog": // clog <sid>: the connection stops reading and its send buffer is full
+		if !sc.clogC10x(at(0)) {
+			skipped = true
+		}
+	case "unclog": // unclog <sid>: the client reads again
+		if !sc.unclogC10x(at(0), true) {
 			skipped = true
 		}
 	case "fg": // background session's timer fires (hdl_websock.go:119-122)
@@ -379,6 +467,9 @@ func (sc *pScn) op(w []string) {
 	sc.dump()
 }
 
+var pActorOpC10x = map[string]bool{"new": true, "att": true, "det": true, "unsub": true, "fg": true, "want": true, "given": true,
+	"evict": true, "pub": true, "note": true, "delmsg": true}
+
 func pB(b bool) string {
 	if b {
 		return "1"
@@ -482,8 +573,12 @@ func (sc *pScn) dump() {
 func (sc *pScn) finish() {
 	for i, vs := range sc.sess {
 		if !sc.dead[i] {
-			vs.s.cleanUp(true)
-			<-vs.done
+			if sc.unclogC10x(i, false) {
+				vs.s.cleanUp(true)
+			} else {
+				vs.s.cleanUp(true)
+				<-vs.done
+			}
 			sc.dead[i] = true
 		}
 	}
@@ -524,7 +619,7 @@ func TestVerifPres(t *testing.T) {
 			kv := vKV(w[2:])
 			sc = &pScn{id: w[1], out: out, uids: map[int]types.Uid{}, uidIdx: map[types.Uid]int{}, sess: map[int]*vSess{},
 				sessUser: map[int]int{}, dead: map[int]bool{}, grp: map[int]string{}, grpIdx: map[string]int{}, p2p: map[string]bool{},
-				zombies: map[string]*Topic{}}
+				zombies: map[string]*Topic{}, clogged: map[int]*pClogC10x{}}
 			n, _ := strconv.Atoi(kv["users"])
 			for i := 1; i <= n; i++ {
 				u := &types.User{}
